@@ -42,6 +42,13 @@ def c01_jobs(tier, prop=1):
         J.append(mjob('m-n3-ind-head', prop, N=3, K=1, INDUCTIVE=1, HEAD=1, OPS=ALLOPS, timeout=T))
         J.append(mjob('m-n3-l2-k2-injected', prop, N=3, L=2, K=2, INJECT=1, OPS=CORE, timeout=T))
         J.append(mjob('m-n2-l2-k2-injected-head-manual', prop, N=2, L=2, K=2, INJECT=1, HEAD=1, MANUAL=1, OPS=CORE | 128, timeout=T))
+        J.append(mjob('m-n4-k4', prop, N=4, K=4, OPS=CORE, timeout=T))
+        J.append(mjob('m-n5-k3', prop, N=5, K=3, OPS=CORE, timeout=T))
+        J.append(mjob('m-n3-l1-k4', prop, N=3, L=1, K=4, OPS=CORE, timeout=T))
+        J.append(mjob('m-n3-l6-k3', prop, N=3, L=6, K=3, OPS=CORE, timeout=T))
+        J.append(mjob('m-n3-k3-events-head', prop, N=3, K=3, HEAD=1, OPS=EVENTS | 1, timeout=T))
+        J.append(mjob('m-n3-l2-k3-all', prop, N=3, L=2, K=3, MANUAL=1, HEAD=1, PAYLOAD=3, OPS=ALLOPS, timeout=T, **dict(HIST, **SER)))
+        J.append(mjob('m-n5-ind-head-manual', prop, N=5, K=1, INDUCTIVE=1, HEAD=1, MANUAL=1, OPS=ALLOPS, timeout=T))
     else:
         for n in (1, 2, 3, 4, 5):
             J.append(mjob('m-n%d-k4' % n, prop, N=n, K=4, OPS=CORE, timeout=T))
@@ -67,7 +74,7 @@ def c01_jobs(tier, prop=1):
 def c04_jobs(tier):
     T = 300 if tier == 'quick' else 1500
     J = []
-    Ls = (1, 2, 4) if tier == 'quick' else (1, 2, 3, 4, 5, 6, 7, 8)
+    Ls = (1, 2, 3, 4, 6) if tier == 'quick' else (1, 2, 3, 4, 5, 6, 7, 8)
     for l in Ls:
         k = 2 if l <= 4 else 1
         J.append(mjob('m-n3-l%d' % l, 4, N=3, L=l, K=k, OPS=CORE, timeout=T))
@@ -138,7 +145,7 @@ def c07_jobs(tier):
     J.append(mjob('m-n3-pay3-ind', 7, N=3, K=1, PAYLOAD=3, INDUCTIVE=1, OPS=ALLOPS, timeout=T, **HIST))
     if tier != 'quick':
         J.append(mjob('m-n3-pay5-k3-events', 7, N=3, K=3, PAYLOAD=5, OPS=EVENTS | 1 | 16, timeout=T, **HIST))
-        J.append(mjob('m-n4-pay9-k3', 7, N=4, K=3, PAYLOAD=9, OPS=CORE, timeout=T, **HIST))
+        J.append(mjob('m-n4-l2-pay9-k2', 7, N=4, L=2, K=2, PAYLOAD=9, OPS=CORE, timeout=T, **HIST))
     return J
 
 def c11_machine_jobs(tier):
@@ -150,6 +157,9 @@ def c11_machine_jobs(tier):
         J.append(mjob('m-n3-k2-head-payload', 11, N=3, K=2, HEAD=1, PAYLOAD=5, OPS=RP, timeout=T, **HIST))
         J.append(mjob('m-n3-k3-manual', 11, N=3, K=3, MANUAL=1, OPS=RP | 128, timeout=T, **HIST))
         J.append(mjob('m-n4-ind', 11, N=4, K=1, INDUCTIVE=1, OPS=ALLOPS, timeout=T, **HIST))
+        J.append(mjob('m-n4-k4', 11, N=4, K=4, OPS=RP, timeout=T, **HIST))
+        J.append(mjob('m-n5-ind', 11, N=5, K=1, INDUCTIVE=1, OPS=ALLOPS, timeout=T, **HIST))
+        J.append(mjob('m-n3-l2-k2-injected', 11, N=3, L=2, K=2, INJECT=1, OPS=RP, timeout=T, **HIST))
     else:
         for n in (1, 2, 3, 4): J.append(mjob('m-n%d-k4' % n, 11, N=n, K=4, OPS=RP, timeout=T, **HIST))
         J.append(mjob('m-n3-k3-head-payload', 11, N=3, K=3, HEAD=1, PAYLOAD=5, OPS=RP, timeout=T, **HIST))
@@ -211,7 +221,7 @@ def c20_jobs(tier):
 def c10_jobs(tier):
     J = []
     T = 300 if tier == 'quick' else 1500
-    caps = (1, 2, 3, 4) if tier == 'quick' else (1, 2, 3, 4, 5, 6, 7, 8)
+    caps = (1, 2, 3, 4) if tier == 'quick' else (1, 2, 3, 4, 5, 6)
     def kj(name, cap, **d):
         d['CAP'] = cap
         return Job(name, 'tasklist.cpp', d, unwind=max(6, cap + 3), unwindset={'nondet_fill.0': 40 + 16 * cap}, timeout=T, prop=(1000, 1099))
@@ -219,15 +229,15 @@ def c10_jobs(tier):
         for pay in (0, 1):
             J.append(kj('plan-ind-cap%d-p%d' % (cap, pay), cap, MODE=0, PAYLOAD=pay))
             J.append(kj('tasks-ind-cap%d-p%d' % (cap, pay), cap, MODE=2, PAYLOAD=pay))
-        if cap <= (3 if tier == 'quick' else 5):
-            k = cap + 2 if tier == 'quick' else 2 * cap + 2
+        if cap <= (3 if tier == 'quick' else 4):
+            k = cap + 2 if tier == 'quick' else cap + 3
             j = kj('plan-hist-cap%d-k%d' % (cap, k), cap, MODE=1, KSTEPS=k); j.unwind = max(j.unwind, k + 3); J.append(j)
             if cap <= 2 or tier != 'quick':
                 j = kj('plan-hist-manual-cap%d-k%d' % (cap, k + 1), cap, MODE=1, KSTEPS=k + 1, MANUAL=1); j.unwind = max(j.unwind, k + 4); J.append(j)
     j = kj('plan-hist-serial-cap2-p1-k4', 2, MODE=1, PAYLOAD=1, SERIAL=1, KSTEPS=4); j.unwind = 8; J.append(j)
     if tier != 'quick':
         j = kj('plan-hist-cap3-pay', 3, MODE=1, PAYLOAD=1, KSTEPS=6); j.unwind = 10; J.append(j)
-        j = kj('plan-hist-serial-manual-cap3-p1-k6', 3, MODE=1, PAYLOAD=1, SERIAL=1, MANUAL=1, KSTEPS=6); j.unwind = 10; J.append(j)
+        j = kj('plan-hist-serial-manual-cap2-p1-k5', 2, MODE=1, PAYLOAD=1, SERIAL=1, MANUAL=1, KSTEPS=5); j.unwind = 9; j.mem_gb = 24; j.weight_gb = 12; J.append(j)
         j = kj('plan-hist-serial-cap2-p0-k5', 2, MODE=1, PAYLOAD=0, SERIAL=1, KSTEPS=5); j.unwind = 9; J.append(j)
     return J
 
@@ -237,7 +247,7 @@ def c14_jobs(tier):
     J = []
     ns = NSET if tier == 'quick' else tuple(range(1, 256))
     for n in ns:
-        heads = (0, 1) if (tier != 'quick' or n <= 9 or n in (64, 255)) else (n % 2,)
+        heads = (0, 1) if (n <= 9 or n in (64, 255) or (tier != 'quick' and n in NSET)) else (n % 2,)
         for head in heads:
             stages = 3 if (n <= 65 or tier != 'quick') else 1
             j = Job('disp-n%d-h%d-s%d' % (n, head, stages), 'dispatch.cpp', dict(NSTATES=n, STATE_LIST=sl(n), HEAD=head, STAGES=stages), unwind=6,
@@ -301,7 +311,7 @@ def c08_jobs(tier, prop=8):
     else:
         J.append(pjob('plan-n2-cap2-manual-reactivate-payload-k3', prop, cap=2, K=3, prefix=1, payload=1, limit=1, timeout=T, NST=2, OPS=UPD | EXT, EDITS=0, MANUAL=1))
         J.append(pjob('plan-n2-cap1-manual-reactivate-k3', prop, cap=1, K=3, prefix=1, payload=0, limit=1, timeout=T, NST=2, OPS=UPD | EXT, EDITS=1, MANUAL=1))
-        for cap in (1, 2, 3, 4, 5):
+        for cap in (1, 2, 3, 4):
             J.append(pjob('plan-n3-cap%d-upd-l2-edits' % cap, prop, cap=cap, K=1, prefix=1, limit=2, timeout=T, NST=3, OPS=UPD, EDITS=1, WITNESS_EXTRA=1))
         for cap in (1, 2, 3):
             J.append(pjob('plan-n3-cap%d-react-l2-edits' % cap, prop, cap=cap, K=1, prefix=1, limit=2, timeout=T, NST=3, OPS=REACT, EDITS=1))
@@ -325,7 +335,7 @@ def c12_jobs(tier):
         return j
     for n in ns:
         big = n > 16
-        variants = ((0, 0), (1, 0), (1, 1)) if (n <= 9 or tier != 'quick') else ((n % 2, (n // 2) % 2),)
+        variants = ((0, 0), (1, 0), (1, 1)) if (n <= 9 or (tier != 'quick' and n in NSET)) else ((n % 2, (n // 2) % 2),)
         for manual, head in variants:
             J.append(sj('ser-n%d-m%d-h%d' % (n, manual, head), n, MANUAL=manual, HEAD=head, FULL=0 if big else 1))
     J.append(sj('ser-n3-m1-h1-payload', 3, MANUAL=1, HEAD=1, PAYLOAD=1))
@@ -349,9 +359,9 @@ def c17_jobs(tier):
         j = Job('self-copy-m%d-p%d-k%d' % (manual, pay, K), 'selfcomp.cpp', dict(ROLE=1, KSTEPS=K, MANUAL=manual, PAYLOAD=pay), unwind=K + 4, unwindset={'nondet_fill.0': 200}, timeout=T, prop=(1700, 1799))
         j.weight_gb = 4.0; J.append(j)
     if tier != 'quick':
-        j = product_job('self-prefill-m0-k4-nopay', 'selfcomp.cpp', dict(ROLE=0, KSTEPS=4, MANUAL=0, PAYLOAD=0), {}, {}, (1700, 1701), (1700, 1799), unwind=8, timeout=T, steps=6, nch=12, ntr=28)
+        j = product_job('self-prefill-m0-k4-nopay', 'selfcomp.cpp', dict(ROLE=0, KSTEPS=4, MANUAL=0, PAYLOAD=0, CAP=1), {}, {}, (1700, 1701), (1700, 1799), unwind=8, timeout=T, steps=6, nch=12, ntr=28)
         j.unwindset['nondet_fill.0'] = 200; j.weight_gb = 6.0; J.append(j)
-        j = Job('self-copy-m0-k4-nopay', 'selfcomp.cpp', dict(ROLE=1, KSTEPS=4, MANUAL=0, PAYLOAD=0), unwind=8, unwindset={'nondet_fill.0': 200}, timeout=T, prop=(1700, 1799)); j.weight_gb = 6.0; J.append(j)
+        j = Job('self-copy-m0-k4-nopay', 'selfcomp.cpp', dict(ROLE=1, KSTEPS=4, MANUAL=0, PAYLOAD=0, CAP=1), unwind=8, unwindset={'nondet_fill.0': 200}, timeout=T, prop=(1700, 1799)); j.weight_gb = 6.0; J.append(j)
     return J
 
 SWITCHES = ['FFSM2_ENABLE_PLANS', 'FFSM2_ENABLE_SERIALIZATION', 'FFSM2_ENABLE_TRANSITION_HISTORY', 'FFSM2_ENABLE_LOG_INTERFACE',
@@ -531,17 +541,24 @@ def c18_jobs(tier):
     for cap in ((1, 2, 3) if tier == 'quick' else (1, 2, 3, 4, 5, 6)):
         for pay in (0, 1):
             ubj(Job('tasks-cap%d-p%d' % (cap, pay), 'tasklist.cpp', dict(CAP=cap, MODE=0, PAYLOAD=pay), unwind=max(6, cap + 3), unwindset={'nondet_fill.0': 40 + 16 * cap}))
+            if cap <= 2: ubj(Job('tasks-only-cap%d-p%d' % (cap, pay), 'tasklist.cpp', dict(CAP=cap, MODE=2, PAYLOAD=pay), unwind=max(6, cap + 3), unwindset={'nondet_fill.0': 40 + 16 * cap}), olevel='O0m')
     for cap in ((2,) if tier == 'quick' else (1, 2, 3)):
         ubj(Job('plan-hist-manual-cap%d' % cap, 'tasklist.cpp', dict(CAP=cap, MODE=1, KSTEPS=cap + 3, MANUAL=1), unwind=cap + 7, unwindset={'nondet_fill.0': 40 + 16 * cap}))
     for w in ((1, 8, 13, 32) if tier == 'quick' else range(1, 33)):
         ubj(Job('bs-w%d' % w, 'bitstream.cpp', dict(W=w, CAP=255, MODE=0), unwind=50, unwindset={'nondet_fill.0': 40}))
+        if w in (1, 13, 32): ubj(Job('bs-w%d' % w, 'bitstream.cpp', dict(W=w, CAP=255, MODE=0), unwind=50, unwindset={'nondet_fill.0': 40}), olevel='O0m')
     ubj(Job('bitwidth', 'bitstream.cpp', dict(MODE=1), unwind=50))
     for cap in ((1, 8, 9, 255) if tier == 'quick' else BOUNDARY_CAPS):
         ubj(Job('bits-cap%d' % cap, 'containers.cpp', dict(CAP=cap, MODE=0), unwind=cap + 6, unwindset={'nondet_fill.0': 4 * cap + 16}))
+        # the optimiser may fold away an out-of-bounds index (it is UB): the kernels are also encoded from the unoptimised IR
+        ubj(Job('bits-cap%d' % cap, 'containers.cpp', dict(CAP=cap, MODE=0), unwind=cap + 6, unwindset={'nondet_fill.0': 4 * cap + 16}), olevel='O0m')
+        if cap < 255:
+            ubj(Job('static-cap%d' % cap, 'containers.cpp', dict(CAP=cap, MODE=1, ETYPE=2), unwind=cap + 6, unwindset={'nondet_fill.0': 4 * cap + 16}), olevel='O0m')
+            ubj(Job('dynamic-cap%d' % cap, 'containers.cpp', dict(CAP=cap, MODE=2, ETYPE=1), unwind=cap + 6, unwindset={'nondet_fill.0': 4 * cap + 16}), olevel='O0m')
         if cap < 255:
             ubj(Job('static-cap%d' % cap, 'containers.cpp', dict(CAP=cap, MODE=1, ETYPE=2), unwind=cap + 6, unwindset={'nondet_fill.0': 4 * cap + 16}))
             ubj(Job('dynamic-cap%d' % cap, 'containers.cpp', dict(CAP=cap, MODE=2, ETYPE=1), unwind=cap + 6, unwindset={'nondet_fill.0': 4 * cap + 16}))
-    for n in ((1, 2, 64) if tier == 'quick' else (1, 2, 3, 64, 128, 255)):
+    for n in ((1, 2, 64) if tier == 'quick' else (1, 2, 3, 64, 128)):
         j = Job('disp-n%d' % n, 'dispatch.cpp', dict(NSTATES=n, STATE_LIST=sl(n), HEAD=n % 2, STAGES=3 if n <= 64 else 1), unwind=6, mem_gb=24, seeds=20)
         j.weight_gb = 0.5 + n * n * 8.0 / (255 * 255); ubj(j)
         j = Job('ser-n%d' % n, 'serial.cpp', dict(NSTATES=n, STATE_LIST=sl(n), MANUAL=1, HEAD=1, FULL=1 if n <= 16 else 0), unwind=6, unwindset={'nondet_fill.0': 64}, mem_gb=24, seeds=20)
